@@ -217,12 +217,13 @@ Definition clip_trapped (t pixel available pixel_diff : Q) (cp : option Q) : Q *
   let clipped := clipped_of t available pixel_diff cp in
   (clipped, pixel + (t - clipped)).
 
-(* second loop: `output_pixel` is overwritten by every species, `pixel_array` is NOT updated:
-   only the last species' clipped excess reaches the returned pixel *)
+(* second loop (as repaired by `fix: persistence returns the clipped charge of every trap species to the pixel`):
+   `output_pixel` starts as a copy of `pixel_array` and is handed to clip_trapped_charge as `pixel`, so the clipped
+   excess of EVERY species is added to it; `available_traps` is still computed from `pixel_array` *)
 Fixpoint clip_loop (sp : list species) (tr : list Q) (pixel pixel_diff out : Q) : Q * list Q :=
   match sp, tr with
   | s :: sp', t :: tr' =>
-      let '(c, o) := clip_trapped t pixel (pixel * dens s) pixel_diff (cap s) in
+      let '(c, o) := clip_trapped t out (pixel * dens s) pixel_diff (cap s) in
       let '(o', cs) := clip_loop sp' tr' pixel pixel_diff o in
       (o', c :: cs)
   | _, _ => (out, [])
@@ -231,18 +232,6 @@ Fixpoint clip_loop (sp : list species) (tr : list Q) (pixel pixel_diff out : Q) 
 Definition persist_pixel (sp : list species) (tr : list Q) (pixel : Q) : Q * list Q :=
   let '(p1, t1) := trap_loop sp tr pixel in
   clip_loop sp t1 p1 (p1 - pixel) p1.
-
-(* what the second loop discards: the clipped excess of every species but the last *)
-Fixpoint clip_lost (sp : list species) (tr : list Q) (pixel pixel_diff : Q) : Q :=
-  match sp, tr with
-  | s :: ((_ :: _) as sp'), t :: ((_ :: _) as tr') =>
-      (t - fst (clip_trapped t pixel (pixel * dens s) pixel_diff (cap s)))
-      + clip_lost sp' tr' pixel pixel_diff
-  | _, _ => 0
-  end.
-
-Definition persist_lost (sp : list species) (tr : list Q) (pixel : Q) : Q :=
-  let '(p1, t1) := trap_loop sp tr pixel in clip_lost sp t1 p1 (p1 - pixel).
 
 (* several readouts: before each call `add` electrons are collected into the pixel *)
 Fixpoint persist_steps (steps : list (Q * list species)) (tr : list Q) (pixel : Q) : Q * list Q :=
@@ -327,6 +316,12 @@ Fixpoint cdm_line (P : cdm_par) (i : nat) (px : list Q) (nos : list Q) : list Q 
 
 Definition cdm_run (P : cdm_par) (nsp : nat) (lines : list (list Q)) : list (list Q) :=
   map (fun px => fst (cdm_line P 0 px (repeat 0 nsp))) lines.
+
+(* the range checks of the wrapper `cdm` (as repaired by `fix: cdm rejects a zero 'max_electron_volume' and a zero
+   full well capacity`): the two divisors of the capture coefficients are strictly positive *)
+Definition cdm_params_ok (vg beta fwc t : Q) : bool :=
+  Qltb 0 vg && Qle_bool vg 1 && Qle_bool 0 beta && Qle_bool beta 1
+  && Qltb 0 fwc && Qle_bool fwc 10000000 && Qle_bool 0 t && Qle_bool t 10.
 
 (* executable instance for beta = 1: a ** 0 = 1, constant capture probabilities *)
 Definition cdm_par_beta1 (gs pcs rs : list Q) (inj : option Q) : cdm_par :=
@@ -442,6 +437,7 @@ Inductive c15_case :=
 | KIpc (c d a : Q) (fr out : frame)
 | KPersist (c : pcase)
 | KCdm (lines_in lines_out : list (list Q))                          (* any parameters: specification only *)
+| KCdmG (vg beta fwc t : Q) (raised : bool)                          (* the wrapper's range checks *)
 | KCdmX (gs pcs rs : list Q) (inj : option Q) (lines_in lines_out : list (list Q)).  (* beta = 1, exact factors *)
 
 Definition kernel_sum_one (l : list Q) : bool := Qeq_bool (qsum l) 1 && Nat.eqb (length l) 9.
@@ -508,6 +504,7 @@ Definition case_mismatch (c : c15_case) : bool :=
       end
   | KPersist c => persist_agree c (pc_pix0 c) (pc_trap0 c) (pc_steps c)
   | KCdm _ _ => true
+  | KCdmG vg beta fwc t raised => Bool.eqb raised (negb (cdm_params_ok vg beta fwc t))
   | KCdmX gs pcs rs inj li lo =>
       let sc := 1 + maxabs (concat li) in
       all2 (all2 (close tol_cdm sc)) (cdm_run (cdm_par_beta1 gs pcs rs inj) (length gs) li) lo
@@ -563,6 +560,9 @@ Definition case_violates (c : c15_case) : bool :=
          end
   | KPersist c => persist_spec (pc_pix0 c) (pc_trap0 c) (pc_steps c)
   | KCdm li lo => cdm_spec li lo
+  | KCdmG vg beta fwc t raised =>
+      (* inside the documented ranges the model runs; a refusal is only acceptable outside them *)
+      if raised then negb (cdm_params_ok vg beta fwc t) else true
   | KCdmX _ _ _ _ li lo => cdm_spec li lo
   end.
 
